@@ -21,6 +21,7 @@ import (
 	"sort"
 	"strconv"
 	"strings"
+	"sync"
 
 	"com.tuntun.rangers/node/src/common"
 	"com.tuntun.rangers/node/src/consensus/base"
@@ -114,6 +115,21 @@ var genBytes = func() []byte {
 var infBytes = make([]byte, 64)
 
 var g2BaseTok = hx.Hex(bn.GetG2Base().Marshal())
+
+// snapshotSigs renders every signature object of a witness map (sorted by key).
+func snapshotSigs(m map[string]groupsig.Signature) string {
+	ks := make([]string, 0, len(m))
+	for k := range m {
+		ks = append(ks, k)
+	}
+	sort.Strings(ks)
+	var sb strings.Builder
+	for _, k := range ks {
+		v := m[k]
+		sb.WriteString(k + "=" + hx.Hex(v.Serialize()) + ";")
+	}
+	return sb.String()
+}
 
 // signGen is what model.GroupSignGenerator and (through the hook) logical.groupSignGenerator offer.
 type signGen interface {
@@ -427,8 +443,22 @@ func execOp(line string) string {
 		if hasDup(ids) {
 			return "dup-ids"
 		}
+		before := snapshotSigs(m)
 		s := groupsig.RecoverGroupSignature(m, k)
-		return "ok " + sigTok(s)
+		firstTok := sigTok(s)
+		res := "ok " + firstTok
+		// retention: the caller's share objects must be untouched, and using the very same objects
+		// again (another recovery, as a second node/generator would) must give the same answer
+		if snapshotSigs(m) != before {
+			res += " INPUT-MUTATED"
+		}
+		if again := groupsig.RecoverGroupSignature(m, k); "ok "+sigTok(again) != res {
+			res += " SECOND-RECOVERY-DIFFERS"
+		}
+		if sigTok(s) != firstTok { // the returned object aliases something a later call overwrote
+			res += " RESULT-CHANGED-LATER"
+		}
+		return res
 	case "hashg1":
 		// hashg1 <msg> <reference H(m)>: the code's hash-to-G1 (through Sign(1, m)); the model side
 		// answers with the reference point carried on the line
@@ -524,12 +554,41 @@ func execOp(line string) string {
 			}
 			return "0"
 		}
+		pre := make([]string, len(arrs))
+		for i, a := range arrs {
+			pre[i] = hx.Hex(a.sig.Serialize())
+		}
 		for _, a := range arrs {
 			add, gen := gsg.AddWitnessSign(a.id, a.sig)
 			flags = append(flags, b2(add)+b2(gen))
 		}
 		gs := gsg.GetGroupSign()
-		return strings.Join(flags, ",") + " " + sigTok(&gs)
+		firstTok := sigTok(&gs)
+		res := strings.Join(flags, ",") + " " + firstTok
+		// retention: same share objects into a second generator (another round / the random-beacon
+		// generator), inputs unchanged, the first generator's result unchanged afterwards
+		var g2nd signGen = model.NewGroupSignGenerator(k)
+		if w[0] == "lgen" {
+			g2nd = lgenNew(k)
+		}
+		for _, a := range arrs {
+			g2nd.AddWitnessSign(a.id, a.sig)
+		}
+		gs2 := g2nd.GetGroupSign()
+		if sigTok(&gs2) != sigTok(&gs) {
+			res += " SECOND-GENERATOR-DIFFERS"
+		}
+		for i, a := range arrs {
+			if hx.Hex(a.sig.Serialize()) != pre[i] {
+				res += " INPUT-MUTATED"
+				break
+			}
+		}
+		gs = gsg.GetGroupSign()
+		if sigTok(&gs) != firstTok {
+			res += " RESULT-CHANGED-LATER"
+		}
+		return res
 	case "dkg":
 		return execDkg(w, nil)
 	}
@@ -730,6 +789,14 @@ func execDkg(w []string, obs *dkgObs) string {
 	for j := 0; j < n; j++ {
 		msks[j] = secTok(&d.msk[j])
 	}
+	// retention: every share object must still be the signature it was before the recoveries
+	mutated := ""
+	for j := 0; j < n; j++ {
+		fresh := groupsig.Sign(d.msk[j], msg)
+		if hx.Hex(fresh.Serialize()) != hx.Hex(shares[j].Serialize()) {
+			mutated = " SHARE-MUTATED"
+		}
+	}
 	if obs != nil {
 		obs.First, obs.All, obs.Direct = first, allS, sigTok(&direct)
 		obs.RefDirect = hx.Hex(new(bn.G1).ScalarMult(g1Of(hm), gsk.GetBigInt()).Marshal())
@@ -758,7 +825,7 @@ func execDkg(w []string, obs *dkgObs) string {
 			obs.GroupVerify = gen.VerifyGroupSign(d.gpk[0], msg) && groupsig.VerifySig(d.gpk[0], msg, gs)
 		}
 	}
-	return strings.Join(msks, ",") + " " + secTok(gsk) + " " + first + " " + allS + " " + sigTok(&direct) + " " + hx.Hex(d.gpk[0].Serialize())
+	return strings.Join(msks, ",") + " " + secTok(gsk) + " " + first + " " + allS + " " + sigTok(&direct) + " " + hx.Hex(d.gpk[0].Serialize()) + mutated
 }
 
 // ---------------------------------------------------------------------------
@@ -768,6 +835,8 @@ type gen struct {
 	r    *hx.Rng
 	out  *hx.Out
 	pool *msgPool
+	// lines emitted so far (for the history phase)
+	emitted []string
 	// distribution
 	dist map[string]int
 }
@@ -775,6 +844,9 @@ type gen struct {
 func (g *gen) count(k string) { g.dist[k]++ }
 
 func (g *gen) emit(line string) string {
+	if !strings.HasPrefix(line, "groupk ") {
+		g.emitted = append(g.emitted, line)
+	}
 	return g.out.Do(line, func() string { return execOp(line) })
 }
 
@@ -1332,6 +1404,12 @@ func (g *gen) dkgLineIds(n int, cl string, arrivals func(k int) []int, idsOut *[
 func (g *gen) randomArrival(n int) func(k int) []int {
 	return func(k int) []int {
 		m := k + g.r.Intn(n-k+1)
+		switch g.r.Intn(4) { // boundary-biased: exactly k, exactly n
+		case 0:
+			m = k
+		case 1:
+			m = n
+		}
 		p := make([]int, n)
 		for i := range p {
 			p[i] = i
@@ -1416,7 +1494,13 @@ func search(r *hx.Rng, thorough bool, hintLines []string) searchOut {
 	seen := map[string]bool{}
 	addV := func(key, desc, line string) {
 		if len(so.Violations) < 40 {
-			so.Violations = append(so.Violations, violation{Key: key, Desc: desc, Replay: map[string]string{"op": line, "how": "harness/bin/c13 mode=exec op='<op>'"}})
+			v := violation{Key: key, Desc: desc, Replay: map[string]string{"op": line, "how": "harness/bin/c13 mode=exec op='<op>'"}}
+			so.Violations = append(so.Violations, v)
+			// printed (and flushed) when found, so that a later crash or time-out cannot lose it
+			if b, err := json.Marshal(v); err == nil {
+				fmt.Println("VIOL " + string(b))
+				os.Stdout.Sync()
+			}
 		}
 	}
 	checkDkg := func(line string, cl string) {
@@ -1430,22 +1514,37 @@ func search(r *hx.Rng, thorough bool, hintLines []string) searchOut {
 		if len(so.Samples) < 3 {
 			so.Samples = append(so.Samples, map[string]string{"op": trunc(line, 300), "impl": trunc(ans, 300)})
 		}
-		// classify by the ids actually on the line (several generator classes can produce
-		// two ids congruent modulo the group order, e.g. 0 and r)
-		keySuffix := ""
+		// Narrow classification of the recorded finding (ids congruent mod r): a clause is attributed
+		// to it only if the entries that clause actually used contain a congruent pair — the first k
+		// arrivals for the generator clauses, all arrivals for the random-subset recovery. Panics,
+		// failing share verification, key disagreement and hash differences are never attributed.
+		sufFirst, sufAll := "", ""
 		if w := strings.Fields(line); len(w) > 9 {
-			if n, ok := tokDec(w[6]); ok && len(w) >= 9+2*n {
+			k, ok1 := tokDec(w[5])
+			n, ok2 := tokDec(w[6])
+			m, ok3 := tokDec(w[7])
+			if ok1 && ok2 && ok3 && len(w) == 9+2*n+n*k+m {
 				var ids []*big.Int
 				for _, t := range w[9+n : 9+2*n] {
 					if x, ok := tokNat(t); ok {
 						ids = append(ids, x)
 					}
 				}
-				if collides(ids) {
-					keySuffix = "-ids-congruent-mod-order"
+				var arrIds []*big.Int
+				for _, t := range w[len(w)-m:] {
+					if a, ok := tokDec(t); ok && a < len(ids) {
+						arrIds = append(arrIds, ids[a])
+					}
+				}
+				if collides(arrIds) {
+					sufAll = "-ids-congruent-mod-order"
+				}
+				if len(arrIds) >= k && collides(arrIds[:k]) {
+					sufFirst = "-ids-congruent-mod-order"
 				}
 			}
 		}
+		keySuffix := ""
 		_ = cl
 		if strings.HasPrefix(ans, "PANIC") || !strings.Contains(ans, " ok ") {
 			addV("dkg-run-failed"+keySuffix, "DKG/recovery did not complete: "+trunc(ans, 200), line)
@@ -1476,13 +1575,16 @@ func search(r *hx.Rng, thorough bool, hintLines []string) searchOut {
 			addV("group-pubkey-disagrees"+keySuffix, "members computed different group public keys, or it differs from (sum of dealer secrets)*g2", line)
 		}
 		if !obs.GroupVerify {
-			addV("group-signature-invalid"+keySuffix, "recovered group signature fails VerifySig under the group public key", line)
+			addV("group-signature-invalid"+sufFirst, "recovered group signature fails VerifySig under the group public key", line)
 		}
 		if obs.Twin != "" && obs.Twin != "ok "+obs.Direct {
-			addV("round-generator-signature-differs"+keySuffix, "logical.groupSignGenerator (the generator round1 uses) holds a signature different from Sign(group secret): "+trunc(obs.Twin, 40)+" direct="+trunc(obs.Direct, 40), line)
+			addV("round-generator-signature-differs"+sufFirst, "logical.groupSignGenerator (the generator round1 uses) holds a signature different from Sign(group secret): "+trunc(obs.Twin, 40)+" direct="+trunc(obs.Direct, 40), line)
 		}
-		if obs.First != "ok "+obs.Direct || obs.All != "ok "+obs.Direct {
-			addV("subset-dependent-signature"+keySuffix, "recovered signature differs between subsets / from Sign(group secret): first-k="+trunc(obs.First, 40)+" all="+trunc(obs.All, 40)+" direct="+trunc(obs.Direct, 40), line)
+		if obs.First != "ok "+obs.Direct {
+			addV("subset-dependent-signature"+sufFirst, "signature recovered from the first k arrivals differs from Sign(group secret): first-k="+trunc(obs.First, 40)+" direct="+trunc(obs.Direct, 40), line)
+		}
+		if obs.All != "ok "+obs.Direct {
+			addV("subset-dependent-signature"+sufAll, "signature recovered from a random k-subset of all arrivals differs from Sign(group secret): all="+trunc(obs.All, 40)+" direct="+trunc(obs.Direct, 40), line)
 		}
 	}
 	for _, l := range hintLines {
@@ -1524,17 +1626,6 @@ func search(r *hx.Rng, thorough bool, hintLines []string) searchOut {
 		if ok {
 			so.Dist["search.dkg ids=collide directed"]++
 			checkDkg(line, "collide")
-		}
-	}
-	for n := min; n <= max; n++ {
-		for t := 0; t < reps; t++ {
-			cl := []string{"hash", "hash", "small", "wrap", "zero", "collide"}[(t+n)%6]
-			line, ok := g.dkgLine(n, cl, g.randomArrival(n))
-			if !ok {
-				continue
-			}
-			so.Dist[fmt.Sprintf("search.dkg ids=%s", cl)]++
-			checkDkg(line, cl)
 		}
 	}
 	// small-scope exhaustive: one DKG for n = min, every subset of size >= k, two orders each
@@ -1580,6 +1671,19 @@ func search(r *hx.Rng, thorough bool, hintLines []string) searchOut {
 			}
 		}
 	}
+	// random scenarios after the deterministic families
+	for n := min; n <= max; n++ {
+		for t := 0; t < reps; t++ {
+			cl := []string{"hash", "lead0", "small", "wrap", "zero", "collide"}[(t+n)%6]
+			line, ok := g.dkgLine(n, cl, g.randomArrival(n))
+			if !ok {
+				continue
+			}
+			so.Dist[fmt.Sprintf("search.dkg ids=%s", cl)]++
+			checkDkg(line, cl)
+		}
+	}
+	concurrencyPhase(g, &so, addV, thorough)
 	// sampled algebra the theorems assume of bn256 (G1, G2 are modules over Z_r, Pair is bilinear)
 	na := 6
 	if thorough {
@@ -1618,6 +1722,104 @@ func search(r *hx.Rng, thorough bool, hintLines []string) searchOut {
 		}
 	}
 	return so
+}
+
+// concurrencyPhase: the node recovers signatures for several groups / rounds at the same time and
+// model.GroupSignGenerator is fed from several goroutines. Evidence, not proof: N goroutines run op
+// lines on distinct inputs (every goroutine in another rotation) and one locked generator is fed
+// concurrently; every answer must equal the sequential one. Built with -race in the thorough tier.
+func concurrencyPhase(g *gen, so *searchOut, addV func(key, desc, line string), thorough bool) {
+	var lines []string
+	nd := 4
+	if thorough {
+		nd = 10
+	}
+	min, max := model.Param.GroupMemberMin, model.Param.GroupMemberMax
+	for i := 0; i < nd; i++ {
+		n := min + g.r.Intn(max-min+1)
+		if l, ok := g.dkgLine(n, "hash", g.randomArrival(n)); ok {
+			lines = append(lines, l)
+		}
+	}
+	for i := 0; i < 2*nd; i++ {
+		k := 3 + g.r.Intn(5)
+		ids := g.idSet(k, "lead0")
+		sigs, _ := g.honest(k, ids, g.point("hash"))
+		lines = append(lines, "recover "+strconv.Itoa(k)+" - "+interleave(ids, sigs))
+		m, _ := g.message()
+		lines = append(lines, "hashg1 "+hx.Hex(m)+" "+hx.Hex(refHashPoint(m)))
+		lines = append(lines, "aggpk "+g2BaseTok+" "+toks([]*big.Int{g.scalar(), g.scalar(), g.scalar()}))
+		cs := []*big.Int{g.scalar(), g.scalar(), g.scalar()}
+		lines = append(lines, "share "+natTok(g.scalar())+" "+toks(cs))
+	}
+	seq := make([]string, len(lines))
+	for i, l := range lines {
+		l := l
+		seq[i] = hx.Guard(func() string { return execOp(l) })
+	}
+	workers, rounds := 8, 6
+	if thorough {
+		workers, rounds = 16, 8
+	}
+	var mu sync.Mutex
+	var wg sync.WaitGroup
+	bad := map[int]string{}
+	for w := 0; w < workers; w++ {
+		wg.Add(1)
+		go func(w int) {
+			defer wg.Done()
+			for r := 0; r < rounds; r++ {
+				for t := range lines {
+					i := (t*7 + w*3 + r) % len(lines)
+					l := lines[i]
+					if r > 1 && strings.HasPrefix(l, "dkg ") {
+						continue // the expensive lines twice, the cheap arithmetic ones every round
+					}
+					a := hx.Guard(func() string { return execOp(l) })
+					if a != seq[i] {
+						mu.Lock()
+						bad[i] = a
+						mu.Unlock()
+					}
+				}
+			}
+		}(w)
+	}
+	wg.Wait()
+	so.Evaluations += workers * rounds * len(lines)
+	so.Dist["concurrency.ops-compared"] += workers * rounds * len(lines)
+	for i, a := range bad {
+		addV("concurrent-result-differs", "answer under "+strconv.Itoa(workers)+" concurrent callers differs from the sequential answer: "+trunc(a, 60)+" vs "+trunc(seq[i], 60), lines[i])
+	}
+	// one locked generator fed by many goroutines (model.GroupSignGenerator is shared between the
+	// message handlers of a group)
+	for rep := 0; rep < nd; rep++ {
+		n := max
+		k := model.Param.GetGroupK(n)
+		ids := g.idSet(n, "hash")
+		if collides(ids) {
+			continue
+		}
+		hp := g.point("hash")
+		sigs, ref := g.honest(k, ids, hp)
+		gen := model.NewGroupSignGenerator(k)
+		var wg2 sync.WaitGroup
+		for j := 0; j < n; j++ {
+			wg2.Add(1)
+			go func(j int) {
+				defer wg2.Done()
+				b, _ := hx.UnHex(sigs[j])
+				gen.AddWitnessSign(idOf(ids[j]), *groupsig.DeserializeSign(b))
+			}(j)
+		}
+		wg2.Wait()
+		gs := gen.GetGroupSign()
+		so.Evaluations++
+		so.Dist["concurrency.shared-generator"]++
+		if hx.Hex(gs.Serialize()) != hx.Hex(ref) {
+			addV("concurrent-generator-signature-differs", "GroupSignGenerator fed concurrently holds "+trunc(hx.Hex(gs.Serialize()), 40)+" instead of f(0)*H "+trunc(hx.Hex(ref), 40), "gen "+strconv.Itoa(k)+" - "+interleave(ids, sigs))
+		}
+	}
 }
 
 func trunc(s string, n int) string {
@@ -1662,6 +1864,16 @@ func main() {
 	switch a["mode"] {
 	case "exec":
 		fmt.Println(hx.Guard(func() string { return execOp(a["op"]) }))
+		return
+	case "conc":
+		// concurrency phase only (the thorough tier runs this from a -race build)
+		so := searchOut{Dist: map[string]int{}, Algebra: map[string]int{}}
+		g := &gen{r: rng, dist: so.Dist, pool: newMsgPool(rng.Fork(), false)}
+		concurrencyPhase(g, &so, func(key, desc, line string) {
+			so.Violations = append(so.Violations, violation{Key: key, Desc: desc, Replay: map[string]string{"op": line}})
+		}, thorough)
+		b, _ := json.Marshal(so)
+		fmt.Println("SEARCH " + string(b))
 		return
 	case "findmsgs":
 		// print messages whose reference hash point has short coordinates (to be pasted into fixedShortMsgs)
@@ -1766,6 +1978,27 @@ func main() {
 		sizes := []int{min, model.GROUP_MIN_MEMBERS, max, min + 1 + rng.Intn(max-min), 1 + rng.Intn(2)}
 		g.genDkg(sizes, 1)
 		g.genSubsets(4+rng.Intn(2), 40)
+	}
+	// history phase: the same calls again, later in the same process and in another order, must
+	// give the same answers (the Lean side is stateless, so any dependence on process-local history —
+	// scratch buffers, caches, mutated constants — shows up as a mismatch on the second occurrence)
+	{
+		nrep := 150
+		if thorough {
+			nrep = 1500
+		}
+		lines := append([]string{}, g.emitted...)
+		for i := len(lines) - 1; i > 0; i-- {
+			j := rng.Intn(i + 1)
+			lines[i], lines[j] = lines[j], lines[i]
+		}
+		if len(lines) > nrep {
+			lines = lines[:nrep]
+		}
+		for _, l := range lines {
+			g.count("history-replay")
+			g.out.Do(l, func() string { return execOp(l) })
+		}
 	}
 	dist, _ := json.Marshal(g.dist)
 	st := out.StatsJSON()
